@@ -1,4 +1,12 @@
 // Harness for C20: drives *ociregistry.Funcs by reflection over its field set.
+//
+// A case is a history: one table value (nil, or a set of fields with or without an error
+// constructor) and a list of calls made on it one after the other.  Every call has its own
+// context value (live, carrying values, cancelled, past its deadline, cancelled with a cause, a
+// foreign implementation, cancelled after the call returned), its own argument values, its own
+// kind of results from the field functions (value and error, value only, error only, all zero),
+// and is followed by the caller's traversals of the returned iterator (any number, each by a
+// consumer that goes on, that stops at the first yield, or by ociregistry.All).
 package main
 
 import (
@@ -11,6 +19,7 @@ import (
 	"reflect"
 	"sort"
 	"strings"
+	"time"
 
 	"cuelabs.dev/go/oci/ociregistry"
 	"verif/harness/hx"
@@ -20,20 +29,147 @@ var methods = []string{"GetBlob", "GetBlobRange", "GetManifest", "GetTag", "Reso
 	"PushBlob", "PushBlobChunked", "PushBlobChunkedResume", "MountBlob", "PushManifest",
 	"DeleteBlob", "DeleteManifest", "DeleteTag", "Repositories", "Tags", "Referrers"}
 
-type input struct {
-	Nil    bool     `json:"nil"`
-	Ctor   bool     `json:"ctor"`
-	Set    []string `json:"set"`
-	Method string   `json:"method"`
+var iterMethods = []string{"Repositories", "Tags", "Referrers"}
+
+func isIter(m string) bool { return m == "Repositories" || m == "Tags" || m == "Referrers" }
+
+// one call of a history
+type call struct {
+	Method string `json:"method"`
 	// Variant selects the argument values: 0 = all distinct tagged values (a permutation is
 	// visible); 1.. = boundary values (empty strings, zero / negative / equal integers, zero
 	// descriptor), so that a method that treats some argument value specially is visible.
 	Variant int `json:"variant,omitempty"`
+	// Ctx is the kind of context handed to the call: "" (live, carrying a value), "background",
+	// "value", "deadline" (live, with a deadline), "cancelled", "expired", "cause", "custom", "late" (cancelled after the call has
+	// returned, before the iterator is traversed).
+	Ctx string `json:"ctx,omitempty"`
+	// Results selects what the field functions return during this call: 0 = non-zero value and
+	// non-nil error together, 1 = value and nil error, 2 = zero value and error, 3 = all zero
+	// (nil reader / writer / iterator, zero descriptor, nil error).
+	Results int `json:"results,omitempty"`
+	// Trav lists the traversals made of the returned iterator, one letter each: c = the consumer
+	// answers true to every yield, s = it answers false to the first, a = ociregistry.All.
+	// "" = "c".  Ignored for the methods that return no iterator.
+	Trav string `json:"trav,omitempty"`
 }
 
-type ctorErr struct{ name, repo string }
+type input struct {
+	Nil  bool `json:"nil"`
+	Ctor bool `json:"ctor"`
+	// CtorKind selects what the error constructor returns: 0 = a fresh error value, 1 = nil,
+	// 2 = a fresh error value that also wraps ErrUnsupported, 3 = the shared value context.Canceled.
+	CtorKind int      `json:"ctor_kind,omitempty"`
+	Set      []string `json:"set"`
+	// one-call form (older corpus files): Method, Variant
+	Method  string `json:"method,omitempty"`
+	Variant int    `json:"variant,omitempty"`
+	Calls   []call `json:"calls,omitempty"`
+}
+
+func (in *input) normalise() {
+	if len(in.Calls) == 0 && in.Method != "" {
+		in.Calls = []call{{Method: in.Method, Variant: in.Variant}}
+	}
+	in.Method, in.Variant = "", 0
+	for i := range in.Calls {
+		c := &in.Calls[i]
+		if !isIter(c.Method) {
+			c.Trav = ""
+		} else if c.Trav == "" {
+			c.Trav = "c"
+		}
+	}
+	if !in.Ctor || in.Nil {
+		in.CtorKind = 0
+	}
+	if in.Nil {
+		in.Set = nil
+	}
+	sort.Strings(in.Set)
+}
+
+// ---- error constructor results ----
+
+type ctorErr struct{ ctx, name, repo string }
 
 func (e *ctorErr) Error() string { return "ctor:" + e.name + ":" + e.repo }
+
+// an error value from the constructor that errors.Is(_, ErrUnsupported) also accepts
+type ctorErrU struct{ ctorErr }
+
+func (e *ctorErrU) Unwrap() error { return ociregistry.ErrUnsupported }
+
+type ctorCall struct {
+	ctx, name, repo string
+	ret             error
+}
+
+// ---- contexts ----
+
+type ctxKey struct{}
+type otherKey struct{}
+
+// a foreign context implementation that is done, with its own error
+type customCtx struct {
+	label string
+	done  chan struct{}
+}
+
+var errCustomCtx = errors.New("custom context is done")
+
+func (c *customCtx) Deadline() (time.Time, bool) { return time.Time{}, false }
+func (c *customCtx) Done() <-chan struct{}       { return c.done }
+func (c *customCtx) Err() error                  { return errCustomCtx }
+func (c *customCtx) Value(k any) any {
+	if k == (ctxKey{}) {
+		return c.label
+	}
+	return nil
+}
+
+var ctxKinds = []string{"", "background", "value", "deadline", "cancelled", "expired", "cause", "custom", "late"}
+
+// makeCtx returns the context for one call, and what to do once the call has returned.
+func makeCtx(kind, label string) (context.Context, func()) {
+	base := context.WithValue(context.Background(), ctxKey{}, label)
+	nop := func() {}
+	switch kind {
+	case "":
+		return base, nop
+	case "background":
+		return context.Background(), nop
+	case "value":
+		return context.WithValue(base, otherKey{}, "v"), nop
+	case "deadline":
+		// live, with a deadline far away (the timer is left to the end of the process)
+		c, cancel := context.WithDeadline(base, time.Now().Add(time.Hour))
+		_ = cancel
+		return c, nop
+	case "cancelled":
+		c, cancel := context.WithCancel(base)
+		cancel()
+		return c, nop
+	case "expired":
+		c, cancel := context.WithDeadline(base, time.Unix(1, 0))
+		_ = cancel
+		return c, nop
+	case "cause":
+		c, cancel := context.WithCancelCause(base)
+		cancel(errors.New("the cause"))
+		return c, nop
+	case "custom":
+		d := make(chan struct{})
+		close(d)
+		return &customCtx{label: label, done: d}, nop
+	case "late":
+		c, cancel := context.WithCancel(base)
+		return c, cancel
+	}
+	panic("unknown context kind " + kind)
+}
+
+// ---- argument values ----
 
 type sentinelReader struct {
 	ociregistry.BlobReader
@@ -80,8 +216,6 @@ func makeArg(t reflect.Type, i int, variant int, intIdx *int) reflect.Value {
 		}
 	}
 	switch {
-	case t == ctxType:
-		return reflect.ValueOf(context.Background())
 	case t == ioReadType:
 		return reflect.ValueOf(io.Reader(strings.NewReader(fmt.Sprintf("reader%d", i)))).Convert(t)
 	case t == descType:
@@ -118,88 +252,559 @@ func show(v reflect.Value) string {
 	return fmt.Sprint(v.Interface())
 }
 
-type recorder struct {
-	calledField string
-	args        []string
-	results     []reflect.Value
+// ---- iterators returned by the field functions ----
+
+// one yield as the producer or the consumer saw it
+type yieldRec struct {
+	item   string
+	err    error
+	answer bool
 }
 
-func fieldFunc(name string, t reflect.Type, rec *recorder) reflect.Value {
-	return reflect.MakeFunc(t, func(args []reflect.Value) []reflect.Value {
-		rec.calledField = name
-		rec.args = nil
-		for _, a := range args[1:] {
-			rec.args = append(rec.args, show(a))
-		}
-		var res []reflect.Value
-		for i := 0; i < t.NumOut(); i++ {
-			ot := t.Out(i)
-			switch ot {
-			case errType:
-				res = append(res, reflect.ValueOf(fmt.Errorf("result-error-%s", name)).Convert(errType))
-			case readerType:
-				res = append(res, reflect.ValueOf(&sentinelReader{tag: name}).Convert(readerType))
-			case writerType:
-				res = append(res, reflect.ValueOf(&sentinelWriter{tag: name}).Convert(writerType))
-			case descType:
-				res = append(res, reflect.ValueOf(ociregistry.Descriptor{MediaType: "result-" + name, Size: 42}))
-			case seqStrType:
-				res = append(res, reflect.ValueOf(ociregistry.Seq[string](func(y func(string, error) bool) {
-					if y("item1-"+name, nil) {
-						y("item2-"+name, nil)
-					}
-				})))
-			case seqDesType:
-				res = append(res, reflect.ValueOf(ociregistry.Seq[ociregistry.Descriptor](func(y func(ociregistry.Descriptor, error) bool) {
-					y(ociregistry.Descriptor{MediaType: "item-" + name}, nil)
-				})))
-			default:
-				panic("unhandled result type " + ot.String())
+// seqLog is what a stub iterator saw: one entry per traversal of it
+type seqLog struct {
+	travs [][]yieldRec
+}
+
+func jsonOf(x any) string {
+	b, _ := json.Marshal(x)
+	return string(b)
+}
+
+// stubSeq makes an iterator that yields the items, then (when err is non-nil) one more yield
+// carrying err, stops as soon as the consumer answers false, and logs every traversal.
+func stubSeq[T any](items []T, err error) (ociregistry.Seq[T], *seqLog) {
+	lg := &seqLog{}
+	return func(yield func(T, error) bool) {
+		lg.travs = append(lg.travs, nil)
+		n := len(lg.travs) - 1
+		for _, it := range items {
+			ans := yield(it, nil)
+			lg.travs[n] = append(lg.travs[n], yieldRec{jsonOf(it), nil, ans})
+			if !ans {
+				return
 			}
 		}
-		rec.results = res
-		return res
-	})
+		if err != nil {
+			var zero T
+			ans := yield(zero, err)
+			lg.travs[n] = append(lg.travs[n], yieldRec{jsonOf(zero), err, ans})
+		}
+	}, lg
 }
 
-// runSeq drains a Seq with an always-continue consumer.
-func runSeq(v reflect.Value) (items []string, errs []error, yields int) {
-	switch s := v.Interface().(type) {
-	case ociregistry.Seq[string]:
-		s(func(x string, err error) bool {
-			yields++
-			items = append(items, x)
-			errs = append(errs, err)
-			return true
+const maxYields = 16
+
+type runaway struct{}
+
+// traverse runs the iterator once with consumer kind k ('c' or 's') and returns the yields seen.
+// A consumer that has seen maxYields yields gives up by panicking with runaway{}.
+func traverse[T any](s ociregistry.Seq[T], k byte) (recs []yieldRec, ran bool, panicked bool, pv string) {
+	defer func() {
+		if r := recover(); r != nil {
+			if _, ok := r.(runaway); ok {
+				ran = true
+				return
+			}
+			panicked, pv = true, fmt.Sprint(r)
+		}
+	}()
+	s(func(x T, err error) bool {
+		if len(recs) >= maxYields {
+			panic(runaway{})
+		}
+		ans := k == 'c'
+		recs = append(recs, yieldRec{jsonOf(x), err, ans})
+		return ans
+	})
+	return
+}
+
+// allOf hands the iterator to ociregistry.All (through a relay that gives up, as above, after
+// maxYields yields, so that an iterator that never ends cannot hang the run).
+func allOf[T any](s ociregistry.Seq[T]) (items []string, err error, ran bool, panicked bool, pv string) {
+	defer func() {
+		if r := recover(); r != nil {
+			if _, ok := r.(runaway); ok {
+				ran = true
+				return
+			}
+			panicked, pv = true, fmt.Sprint(r)
+		}
+	}()
+	n := 0
+	relay := ociregistry.Seq[T](func(yield func(T, error) bool) {
+		s(func(x T, e error) bool {
+			if n >= maxYields {
+				panic(runaway{})
+			}
+			n++
+			return yield(x, e)
 		})
-	case ociregistry.Seq[ociregistry.Descriptor]:
-		s(func(x ociregistry.Descriptor, err error) bool {
-			yields++
-			b, _ := json.Marshal(x)
-			items = append(items, string(b))
-			errs = append(errs, err)
-			return true
-		})
+	})
+	xs, err := ociregistry.All(relay)
+	for _, x := range xs {
+		items = append(items, jsonOf(x))
 	}
 	return
 }
 
-func classifyErr(err error, yields int) string {
-	var ce *ctorErr
-	if errors.As(err, &ce) {
-		return fmt.Sprintf("O (CCtorError %s %s %d)", hx.B(ce.name), hx.B(ce.repo), yields)
-	}
-	suffix := ": " + ociregistry.ErrUnsupported.Error()
-	if errors.Is(err, ociregistry.ErrUnsupported) && strings.HasSuffix(err.Error(), suffix) {
-		return fmt.Sprintf("O (CUnsupported %s %d)", hx.B(strings.TrimSuffix(err.Error(), suffix)), yields)
-	}
-	return "OOther " + hx.B("unexpected error: "+err.Error())
+// seqValue hides the element type of an iterator value
+type seqValue struct {
+	str ociregistry.Seq[string]
+	des ociregistry.Seq[ociregistry.Descriptor]
 }
 
-func isZero(v reflect.Value) bool { return v.IsZero() }
+func seqOf(v reflect.Value) (seqValue, bool) {
+	switch s := v.Interface().(type) {
+	case ociregistry.Seq[string]:
+		return seqValue{str: s}, s == nil
+	case ociregistry.Seq[ociregistry.Descriptor]:
+		return seqValue{des: s}, s == nil
+	}
+	panic("not an iterator: " + v.Type().String())
+}
 
-func runCase(in input) (coq string, obsDesc string, passed []string) {
-	rec := &recorder{}
+func (s seqValue) traverse(k byte) ([]yieldRec, bool, bool, string) {
+	if s.str != nil {
+		return traverse(s.str, k)
+	}
+	return traverse(s.des, k)
+}
+
+func (s seqValue) all() ([]string, error, bool, bool, string) {
+	if s.str != nil {
+		return allOf(s.str)
+	}
+	return allOf(s.des)
+}
+
+// ---- the table under test and what its functions record ----
+
+type fieldCall struct {
+	field   string
+	ctx     string
+	args    []string
+	results []reflect.Value
+	seqLog  *seqLog // the log of the iterator among the results, if any
+}
+
+type world struct {
+	in         input
+	curCtx     context.Context
+	curLabel   string
+	curResults int
+	fieldCalls []fieldCall
+	ctorCalls  []ctorCall
+}
+
+func same(a, b any) (eq bool) {
+	hx.Recover(func() { eq = a == b })
+	return
+}
+
+// labelOf names the context a function of the table received: the label of the context of the
+// call in progress when it is that very value.
+func (w *world) labelOf(c context.Context) string {
+	if same(c, w.curCtx) {
+		return w.curLabel
+	}
+	if c == nil {
+		return "other:nil"
+	}
+	var v any
+	hx.Recover(func() { v = c.Value(ctxKey{}) })
+	if v == w.curLabel {
+		return "other:derived-from:" + w.curLabel
+	}
+	return "other:foreign"
+}
+
+func richDescriptor(tag string) ociregistry.Descriptor {
+	return ociregistry.Descriptor{
+		MediaType: "result-" + tag, Digest: "sha256:result", Size: 42,
+		URLs:         []string{"u1-" + tag, "u2"},
+		Annotations:  map[string]string{"k": tag},
+		Data:         []byte("data-" + tag),
+		ArtifactType: "artifact-" + tag,
+	}
+}
+
+func (w *world) fieldFunc(name string, t reflect.Type) reflect.Value {
+	return reflect.MakeFunc(t, func(args []reflect.Value) []reflect.Value {
+		fc := fieldCall{field: name}
+		if c, ok := args[0].Interface().(context.Context); ok {
+			fc.ctx = w.labelOf(c)
+		} else {
+			fc.ctx = "other:nil"
+		}
+		for _, a := range args[1:] {
+			fc.args = append(fc.args, show(a))
+		}
+		kind := w.curResults
+		withValue := kind == 0 || kind == 1
+		withErr := kind == 0 || kind == 2
+		tag := fmt.Sprintf("%s#%d", name, len(w.fieldCalls))
+		for i := 0; i < t.NumOut(); i++ {
+			ot := t.Out(i)
+			var r reflect.Value
+			switch ot {
+			case errType:
+				if withErr {
+					r = reflect.ValueOf(fmt.Errorf("result-error-%s", tag)).Convert(errType)
+				}
+			case readerType:
+				if withValue {
+					r = reflect.ValueOf(&sentinelReader{tag: tag}).Convert(readerType)
+				}
+			case writerType:
+				if withValue {
+					r = reflect.ValueOf(&sentinelWriter{tag: tag}).Convert(writerType)
+				}
+			case descType:
+				if withValue {
+					r = reflect.ValueOf(richDescriptor(tag))
+				}
+			case seqStrType:
+				var items []string
+				var err error
+				if withValue {
+					items = []string{"item1-" + tag, "item2-" + tag, ""}
+				}
+				if withErr {
+					err = fmt.Errorf("seq-error-%s", tag)
+				}
+				if kind != 3 {
+					s, lg := stubSeq(items, err)
+					fc.seqLog = lg
+					r = reflect.ValueOf(s)
+				}
+			case seqDesType:
+				var items []ociregistry.Descriptor
+				var err error
+				if withValue {
+					items = []ociregistry.Descriptor{richDescriptor(tag), {}}
+				}
+				if withErr {
+					err = fmt.Errorf("seq-error-%s", tag)
+				}
+				if kind != 3 {
+					s, lg := stubSeq(items, err)
+					fc.seqLog = lg
+					r = reflect.ValueOf(s)
+				}
+			default:
+				panic("unhandled result type " + ot.String())
+			}
+			if !r.IsValid() {
+				r = reflect.Zero(ot)
+			}
+			fc.results = append(fc.results, r)
+		}
+		w.fieldCalls = append(w.fieldCalls, fc)
+		return fc.results
+	})
+}
+
+func (w *world) newError(ctx context.Context, methodName, repo string) error {
+	cc := ctorCall{ctx: w.labelOf(ctx), name: methodName, repo: repo}
+	switch w.in.CtorKind {
+	case 0:
+		cc.ret = &ctorErr{cc.ctx, methodName, repo}
+	case 1:
+		cc.ret = nil
+	case 2:
+		cc.ret = &ctorErrU{ctorErr{cc.ctx, methodName, repo}}
+	case 3:
+		cc.ret = context.Canceled
+	}
+	w.ctorCalls = append(w.ctorCalls, cc)
+	return cc.ret
+}
+
+// classify names an error a method reported: the very value the constructor returned during
+// this call, or the default unsupported-operation error.  ok = false: neither.
+func (w *world) classify(err error) (coq string, ok bool, why string) {
+	for i := len(w.ctorCalls) - 1; i >= 0; i-- {
+		cc := w.ctorCalls[i]
+		if same(cc.ret, err) {
+			return fmt.Sprintf("(ECtorErr %s %s %s)", hx.B(cc.ctx), hx.B(cc.name), hx.B(cc.repo)), true, ""
+		}
+	}
+	if err == nil {
+		return "", false, "nil error"
+	}
+	suffix := ": " + ociregistry.ErrUnsupported.Error()
+	if len(w.ctorCalls) == 0 && errors.Is(err, ociregistry.ErrUnsupported) && strings.HasSuffix(err.Error(), suffix) {
+		return fmt.Sprintf("(EUnsup %s)", hx.B(strings.TrimSuffix(err.Error(), suffix))), true, ""
+	}
+	return "", false, "unexpected error: " + err.Error()
+}
+
+func zeroItem(item string) bool {
+	return item == `""` || item == jsonOf(ociregistry.Descriptor{})
+}
+
+// faithful checks that the results the caller got are the results of the one field call:
+// interface values identical, descriptors deeply equal, and an iterator that behaves, traversal
+// after traversal and for each kind of consumer, as the field's own iterator: every yield the
+// field's iterator makes reaches the consumer unchanged, every answer reaches the iterator, and
+// the iterator is run exactly once per traversal (and not before).
+func (w *world) faithful(out []reflect.Value, fc fieldCall, trav string, after func()) string {
+	if len(out) != len(fc.results) {
+		return "number of results altered"
+	}
+	for i := range out {
+		ot := out[i].Type()
+		switch {
+		case ot == seqStrType || ot == seqDesType:
+			s, isNil := seqOf(out[i])
+			if fc.seqLog == nil {
+				if !isNil {
+					return "nil iterator replaced"
+				}
+				continue
+			}
+			if isNil {
+				return "iterator dropped"
+			}
+			if len(fc.seqLog.travs) != 0 {
+				return "iterator traversed by the method itself"
+			}
+			after()
+			for j := 0; j < len(trav); j++ {
+				before := len(fc.seqLog.travs)
+				var bad string
+				if trav[j] == 'a' {
+					items, err, ran, panicked, _ := s.all()
+					if panicked {
+						return "panic in a traversal of the delegated iterator"
+					}
+					if ran {
+						return "delegated iterator does not end"
+					}
+					if len(fc.seqLog.travs) != before+1 {
+						return "delegated iterator not run once per traversal"
+					}
+					var wantItems []string
+					var wantErr error
+					for _, r := range fc.seqLog.travs[before] {
+						if r.err != nil {
+							wantErr = r.err
+							break
+						}
+						wantItems = append(wantItems, r.item)
+					}
+					if !reflect.DeepEqual(items, wantItems) || !same(err, wantErr) {
+						bad = "delegated iterator altered (All)"
+					}
+				} else {
+					recs, ran, panicked, _ := s.traverse(trav[j])
+					if panicked {
+						return "panic in a traversal of the delegated iterator"
+					}
+					if ran {
+						return "delegated iterator does not end"
+					}
+					if len(fc.seqLog.travs) != before+1 {
+						return "delegated iterator not run once per traversal"
+					}
+					prod := fc.seqLog.travs[before]
+					if len(recs) != len(prod) {
+						bad = "delegated iterator altered"
+					}
+					for k := 0; bad == "" && k < len(recs); k++ {
+						if recs[k].item != prod[k].item || !same(recs[k].err, prod[k].err) || recs[k].answer != prod[k].answer {
+							bad = "delegated iterator altered"
+						}
+					}
+				}
+				if bad != "" {
+					return fmt.Sprintf("%s in traversal %d", bad, j+1)
+				}
+			}
+		case ot.Kind() == reflect.Interface:
+			if out[i].IsNil() != fc.results[i].IsNil() {
+				return "results altered"
+			}
+			if !out[i].IsNil() && !same(out[i].Interface(), fc.results[i].Interface()) {
+				return "results altered"
+			}
+		default:
+			if !reflect.DeepEqual(out[i].Interface(), fc.results[i].Interface()) {
+				return "results altered"
+			}
+		}
+	}
+	return ""
+}
+
+func travCoq(trav string) string {
+	var ks []string
+	for i := 0; i < len(trav); i++ {
+		switch trav[i] {
+		case 'c':
+			ks = append(ks, "KGoOn")
+		case 's':
+			ks = append(ks, "KStop")
+		case 'a':
+			ks = append(ks, "KAll")
+		default:
+			panic("unknown consumer " + trav)
+		}
+	}
+	return hx.List(ks)
+}
+
+// runStep makes one call of the history and returns the Coq terms of the step and of what was
+// seen, plus a readable form.
+// uneven is set when a traversal of an unset iterator did not make exactly one yield; it is used,
+// like [odd], only to choose the call a case is filed under.
+func (w *world) runStep(fv reflect.Value, idx int, c call) (stepCoq, obs, obsDesc string, uneven bool) {
+	label := fmt.Sprintf("ctx%d:%s", idx, c.Ctx)
+	ctx, after := makeCtx(c.Ctx, label)
+	w.curCtx, w.curLabel, w.curResults = ctx, label, c.Results
+	w.fieldCalls, w.ctorCalls = nil, nil
+	defer after()
+
+	m := fv.MethodByName(c.Method)
+	mt := m.Type()
+	args := make([]reflect.Value, mt.NumIn())
+	var passed []string
+	intIdx := 0
+	args[0] = reflect.ValueOf(ctx)
+	for i := 1; i < len(args); i++ {
+		args[i] = makeArg(mt.In(i), i, c.Variant, &intIdx)
+		passed = append(passed, show(args[i]))
+	}
+	stepCoq = fmt.Sprintf("{| s_m := M%s; s_ctx := %s; s_args := %s; s_results := %d; s_trav := %s |}",
+		c.Method, hx.B(label), hx.Bs(passed), c.Results, travCoq(c.Trav))
+
+	other := func(what string) { obs = "SOther " + hx.B(what); obsDesc = what }
+	var out []reflect.Value
+	panicked, pv := hx.Recover(func() { out = m.Call(args) })
+	switch {
+	case panicked:
+		obs = "SPanic"
+		obsDesc = "panic: " + pv
+	case len(w.fieldCalls) > 1:
+		other(fmt.Sprintf("%d calls of field functions in one method call", len(w.fieldCalls)))
+	case len(w.fieldCalls) == 1:
+		fc := w.fieldCalls[0]
+		if what := w.faithful(out, fc, c.Trav, after); what != "" {
+			other(what)
+			obsDesc = "delegated to " + fc.field + ": " + what
+		} else {
+			obs = fmt.Sprintf("SDelegated M%s %s %s", fc.field, hx.B(fc.ctx), hx.Bs(fc.args))
+			obsDesc = "delegated to " + fc.field + " ctx " + fc.ctx + " args " + strings.Join(fc.args, ",")
+		}
+	default:
+		last := out[len(out)-1]
+		if last.Type() == seqStrType || last.Type() == seqDesType {
+			s, isNil := seqOf(last)
+			if isNil {
+				other("nil iterator and no delegation")
+				break
+			}
+			after()
+			var travs, descs []string
+			for j := 0; j < len(c.Trav) && obs == ""; j++ {
+				var ys []string
+				yerr := func(item string, err error) {
+					if !zeroItem(item) {
+						ys = append(ys, "YOther "+hx.B("item "+item))
+						return
+					}
+					if e, ok, why := w.classify(err); ok {
+						ys = append(ys, "YErr "+e)
+					} else {
+						ys = append(ys, "YOther "+hx.B(why))
+					}
+				}
+				if c.Trav[j] == 'a' {
+					items, err, ran, p, v := s.all()
+					// All's answer read back as yields: every item it returned was a yield with a
+					// nil error, a non-nil error was one more yield
+					if p {
+						obs, obsDesc = "SPanic", "panic in traversal: "+v
+					}
+					for _, it := range items {
+						yerr(it, nil)
+					}
+					if err != nil {
+						yerr(`""`, err)
+					}
+					if ran {
+						ys = append(ys, "YOther "+hx.B("more yields than the consumer accepts"))
+					}
+					descs = append(descs, fmt.Sprintf("All: %d items, error %v", len(items), err))
+				} else {
+					recs, ran, p, v := s.traverse(c.Trav[j])
+					if p {
+						obs, obsDesc = "SPanic", "panic in traversal: "+v
+					}
+					for _, r := range recs {
+						yerr(r.item, r.err)
+					}
+					if ran {
+						ys = append(ys, "YOther "+hx.B("more yields than the consumer accepts"))
+					}
+					descs = append(descs, fmt.Sprintf("%c: %d yields", c.Trav[j], len(recs)))
+					for _, r := range recs {
+						descs[len(descs)-1] += fmt.Sprintf(" (%s, %v)", r.item, r.err)
+					}
+				}
+				travs = append(travs, hx.List(ys))
+				if len(ys) != 1 {
+					uneven = true
+				}
+			}
+			if obs == "" {
+				obs = "SSeq " + hx.List(travs)
+				obsDesc = "iterator; traversals: " + strings.Join(descs, "; ")
+			}
+		} else {
+			var err error
+			if !last.IsNil() {
+				err = last.Interface().(error)
+			}
+			nonzero := false
+			for _, o := range out[:len(out)-1] {
+				if !o.IsZero() {
+					nonzero = true
+				}
+			}
+			e, ok, why := w.classify(err)
+			switch {
+			case nonzero:
+				other("non-zero result and no delegation")
+			case !ok:
+				other(why)
+			default:
+				obs = "SError " + e
+			}
+			obsDesc = fmt.Sprintf("error %v", err)
+		}
+	}
+	return
+}
+
+func kindOf(obsDesc string) string {
+	switch {
+	case strings.HasPrefix(obsDesc, "panic"):
+		return "panic"
+	case strings.HasPrefix(obsDesc, "delegated"):
+		return "delegated"
+	}
+	return "error"
+}
+
+// runCase runs a history.  subject is the call the case is filed under (Tags["class"]): the
+// first one whose observation is of a shape this table cannot explain (a panic, results altered,
+// an iterator not yielding the error once, a delegation without the field, an error with it),
+// else the last one.  This only names the group a failure is reported in; the judgement is Coq's.
+func runCase(in input) (coq string, observed []string, subject int) {
+	w := &world{in: in}
 	var fv reflect.Value
 	if in.Nil {
 		fv = reflect.ValueOf((*ociregistry.Funcs)(nil))
@@ -208,122 +813,110 @@ func runCase(in input) (coq string, obsDesc string, passed []string) {
 		rv := reflect.ValueOf(f).Elem()
 		for _, name := range in.Set {
 			fld := rv.FieldByName(name + "_")
-			fld.Set(fieldFunc(name, fld.Type(), rec))
+			fld.Set(w.fieldFunc(name, fld.Type()))
 		}
 		if in.Ctor {
-			f.NewError = func(ctx context.Context, methodName, repo string) error {
-				return &ctorErr{methodName, repo}
-			}
+			f.NewError = w.newError
 		}
 		fv = reflect.ValueOf(f)
 	}
-	m := fv.MethodByName(in.Method)
-	mt := m.Type()
-	args := make([]reflect.Value, mt.NumIn())
-	intIdx := 0
-	for i := range args {
-		args[i] = makeArg(mt.In(i), i, in.Variant, &intIdx)
-		if i > 0 {
-			passed = append(passed, show(args[i]))
+	var steps, obs []string
+	var strange []bool
+	for i, c := range in.Calls {
+		s, o, od, uneven := w.runStep(fv, i, c)
+		isSet := false
+		for _, f := range in.Set {
+			isSet = isSet || f == c.Method
 		}
-	}
-	var out []reflect.Value
-	panicked, pv := hx.Recover(func() { out = m.Call(args) })
-	var obs string
-	switch {
-	case panicked:
-		obs = "O CPanic"
-		obsDesc = "panic: " + pv
-	case rec.calledField != "":
-		// delegated: results must be the field's results
-		ok := len(out) == len(rec.results)
-		for i := 0; ok && i < len(out); i++ {
-			if out[i].Type() == seqStrType || out[i].Type() == seqDesType {
-				a, _, _ := runSeq(out[i])
-				b, _, _ := runSeq(rec.results[i])
-				ok = reflect.DeepEqual(a, b)
-			} else {
-				ok = reflect.DeepEqual(out[i].Interface(), rec.results[i].Interface())
-			}
-		}
-		if !ok {
-			obs = "OOther " + hx.B("results altered")
-		} else {
-			obs = fmt.Sprintf("O (CDelegated M%s %s)", rec.calledField, hx.Bs(rec.args))
-		}
-		obsDesc = "delegated to " + rec.calledField + " args " + strings.Join(rec.args, ",")
-	default:
-		last := out[len(out)-1]
-		if last.Type() == seqStrType || last.Type() == seqDesType {
-			items, errs, yields := runSeq(last)
-			if yields == 0 {
-				obs = "OOther " + hx.B("iterator made no yield")
-				obsDesc = "empty iterator"
-				break
-			}
-			e := errs[len(errs)-1]
-			allErr := true
-			for i, x := range errs {
-				if x == nil || (items[i] != "" && !strings.Contains(items[i], `"mediaType":""`)) {
-					allErr = false
-				}
-			}
-			if !allErr || e == nil {
-				obs = "OOther " + hx.B("iterator yielded an item instead of an error")
-				obsDesc = "iterator items"
-				break
-			}
-			obs = classifyErr(e, yields)
-			obsDesc = fmt.Sprintf("iterator error %v after %d yields", e, yields)
-		} else {
-			var err error
-			if !last.IsNil() {
-				err = last.Interface().(error)
-			}
-			nonzero := false
-			for _, o := range out[:len(out)-1] {
-				if !isZero(o) {
-					nonzero = true
-				}
-			}
-			switch {
-			case err == nil:
-				obs = "OOther " + hx.B("no error and no delegation")
-			case nonzero:
-				obs = "OOther " + hx.B("non-zero result with error")
-			default:
-				obs = classifyErr(err, 0)
-			}
-			obsDesc = fmt.Sprintf("error %v", err)
+		strange = append(strange, uneven || odd(o) || strings.HasPrefix(o, "SDelegated") != isSet)
+		steps = append(steps, s)
+		obs = append(obs, "("+o+")")
+		observed = append(observed, od)
+		if subject == i-1 && i > 0 && !strange[i-1] {
+			subject = i
 		}
 	}
 	set := make([]string, len(in.Set))
 	for i, s := range in.Set {
 		set[i] = "M" + s
 	}
-	coq = fmt.Sprintf("{| c_nil := %s; c_ctor := %s; c_set := %s; c_m := M%s; c_args := %s; c_obs := %s |}",
-		hx.Bool(in.Nil), hx.Bool(in.Ctor), hx.List(set), in.Method, hx.Bs(passed), obs)
+	coq = fmt.Sprintf("{| c_nil := %s; c_ctor := %s; c_ctor_kind := %d; c_set := %s; c_steps := %s; c_obs := %s |}",
+		hx.Bool(in.Nil), hx.Bool(in.Ctor), in.CtorKind, hx.List(set), hx.List(steps), hx.List(obs))
 	return
+}
+
+func odd(obs string) bool {
+	return strings.Contains(obs, "SOther") || strings.Contains(obs, "SPanic") || strings.Contains(obs, "YOther")
+}
+
+func without(x string) []string {
+	var r []string
+	for _, m := range methods {
+		if m != x {
+			r = append(r, m)
+		}
+	}
+	return r
+}
+
+func all() []string { return append([]string{}, methods...) }
+
+func neighbour(m string) string {
+	for i, x := range methods {
+		if x == m {
+			return methods[(i+len(methods)-1)%len(methods)]
+		}
+	}
+	panic(m)
+}
+
+// tables a method is looked at on: nil, no field, its own field alone, all but its own, all,
+// a neighbour's alone
+func tablesFor(m string) []input {
+	return []input{
+		{Nil: true},
+		{},
+		{Set: []string{m}},
+		{Set: without(m)},
+		{Set: all()},
+		{Set: []string{neighbour(m)}},
+	}
 }
 
 func main() {
 	cfg := hx.ParseFlags()
 	out := hx.NewOut(cfg, "Obs.C20")
 	add := func(in input, origin string) {
-		sort.Strings(in.Set)
-		coq, od, _ := runCase(in)
-		kind := "error"
-		switch {
-		case strings.HasPrefix(od, "panic"):
-			kind = "panic"
-		case strings.HasPrefix(od, "delegated"):
-			kind = "delegated"
+		in.Set = append([]string{}, in.Set...)
+		in.Calls = append([]call{}, in.Calls...)
+		in.normalise()
+		if len(in.Calls) == 0 {
+			return
 		}
+		coq, od, subj := runCase(in)
+		last := in.Calls[subj]
+		kind := kindOf(od[subj])
 		if out.Add(hx.Case{Coq: coq, Desc: map[string]any{"input": in, "observed": od, "origin": origin},
-			Tags: map[string]any{"class": in.Method + "/" + kind, "method": in.Method, "observed_kind": kind}}) {
-			out.Count("method:" + in.Method)
+			Tags: map[string]any{"class": last.Method + "/" + kind, "method": last.Method, "observed_kind": kind}}) {
+			out.Count("method:" + last.Method)
 			out.Count(fmt.Sprintf("setsize:%d", len(in.Set)))
 			out.Count("origin:" + origin)
+			out.Count(fmt.Sprintf("history:%d", len(in.Calls)))
+			for _, c := range in.Calls {
+				out.Count("ctx:" + c.Ctx)
+				out.Count(fmt.Sprintf("results:%d", c.Results))
+				if c.Trav != "" {
+					out.Count(fmt.Sprintf("traversals:%d", len(c.Trav)))
+					for _, k := range []string{"c", "s", "a"} {
+						if strings.Contains(c.Trav, k) {
+							out.Count("consumer:" + k)
+						}
+					}
+				}
+			}
+			if in.Ctor && !in.Nil {
+				out.Count(fmt.Sprintf("ctor_kind:%d", in.CtorKind))
+			}
 		}
 	}
 	if cfg.Replay != "" {
@@ -347,24 +940,18 @@ func main() {
 		var r struct {
 			Input input `json:"input"`
 		}
-		if json.Unmarshal(raw, &r) == nil && r.Input.Method != "" {
+		if json.Unmarshal(raw, &r) == nil && (r.Input.Method != "" || len(r.Input.Calls) > 0) {
 			add(r.Input, "corpus")
 		}
 	}
-	without := func(x string) []string {
-		var r []string
-		for _, m := range methods {
-			if m != x {
-				r = append(r, m)
-			}
-		}
-		return r
-	}
+	one := func(t input, c call) input { t.Calls = []call{c}; return t }
+
+	// 1. the property's configuration set, one call each
 	for _, ctor := range []bool{false, true} {
 		for _, m := range methods {
 			add(input{Nil: true, Ctor: ctor, Method: m}, "nil")
 			add(input{Ctor: ctor, Method: m}, "none")
-			add(input{Ctor: ctor, Set: append([]string{}, methods...), Method: m}, "all")
+			add(input{Ctor: ctor, Set: all(), Method: m}, "all")
 			for _, f := range methods {
 				add(input{Ctor: ctor, Set: []string{f}, Method: m}, "single")
 				add(input{Ctor: ctor, Set: without(f), Method: m}, "allbutone")
@@ -374,26 +961,125 @@ func main() {
 			}
 		}
 	}
-	// boundary argument values: the outcome may depend on the method's own field only,
+	// 2. boundary argument values: the outcome may depend on the method's own field only,
 	// whatever the arguments are
 	for v := 1; v < len(intVariants); v++ {
 		for _, ctor := range []bool{false, true} {
-			for i, m := range methods {
-				nb := methods[(i+len(methods)-1)%len(methods)]
-				add(input{Nil: true, Ctor: ctor, Method: m, Variant: v}, "args-nil")
-				add(input{Ctor: ctor, Method: m, Variant: v}, "args-none")
-				add(input{Ctor: ctor, Set: []string{m}, Method: m, Variant: v}, "args-own")
-				add(input{Ctor: ctor, Set: without(m), Method: m, Variant: v}, "args-allbutown")
-				add(input{Ctor: ctor, Set: []string{nb}, Method: m, Variant: v}, "args-neighbour")
-				add(input{Ctor: ctor, Set: append([]string{}, methods...), Method: m, Variant: v}, "args-all")
+			for _, m := range methods {
+				for _, t := range tablesFor(m) {
+					t.Ctor = ctor
+					add(one(t, call{Method: m, Variant: v}), "args")
+				}
 			}
 		}
 	}
-	// random subsets
+	// 3. every kind of context: it is handed on untouched and never looked at
+	for _, k := range ctxKinds[1:] {
+		for _, ctor := range []bool{false, true} {
+			for _, m := range methods {
+				for _, t := range tablesFor(m) {
+					t.Ctor = ctor
+					add(one(t, call{Method: m, Ctx: k, Trav: "cs"}), "ctx")
+				}
+			}
+		}
+	}
+	// 4. every kind of results from the field functions, under a live and a done context
+	for res := 1; res <= 3; res++ {
+		for _, k := range []string{"", "cancelled"} {
+			for _, ctor := range []bool{false, true} {
+				for _, m := range methods {
+					for _, set := range [][]string{{m}, all(), {m, neighbour(m)}} {
+						add(input{Ctor: ctor, Set: set, Calls: []call{{Method: m, Results: res, Ctx: k, Trav: "cs"}}}, "results")
+					}
+				}
+			}
+		}
+	}
+	// 5. the returned iterator traversed again and again, by every kind of consumer
+	patterns := []string{"s", "a", "cc", "ccc", "cs", "sc", "ss", "ca", "ac", "aa", "csa", "sssc", "cccc"}
+	for _, p := range patterns {
+		for _, k := range []string{"", "cancelled", "late"} {
+			for _, ctor := range []bool{false, true} {
+				for _, m := range iterMethods {
+					for ti, t := range tablesFor(m) {
+						t.Ctor = ctor
+						nres := 1
+						if ti == 2 || ti == 4 {
+							nres = 3 // the method's own field is set: vary what its iterator does
+						}
+						for res := 0; res < nres; res++ {
+							add(one(t, call{Method: m, Ctx: k, Trav: p, Results: res}), "traversals")
+						}
+					}
+				}
+			}
+		}
+	}
+	// 6. every kind of constructor result
+	for ck := 1; ck <= 3; ck++ {
+		for _, k := range []string{"", "cancelled"} {
+			for _, m := range methods {
+				for ti, t := range tablesFor(m) {
+					if ti == 0 {
+						continue
+					}
+					t.Ctor, t.CtorKind = true, ck
+					add(one(t, call{Method: m, Ctx: k, Trav: "cc"}), "ctor-kinds")
+				}
+			}
+		}
+	}
+	// 7. histories: the same table value called again and again
+	rotCtx := []string{"", "cancelled", "value"}
+	for _, ctor := range []bool{false, true} {
+		for _, m := range methods {
+			for _, t := range tablesFor(m) {
+				t.Ctor = ctor
+				for n := 2; n <= 3; n++ {
+					var cs []call
+					for i := 0; i < n; i++ {
+						cs = append(cs, call{Method: m, Ctx: rotCtx[i%len(rotCtx)], Variant: i, Results: i, Trav: "cc"})
+					}
+					t.Calls = cs
+					add(t, "repeat")
+				}
+			}
+		}
+	}
+	// one method after another: what a call answers does not depend on the call before
+	for _, a := range methods {
+		for _, b := range methods {
+			if a == b {
+				continue
+			}
+			cs := []call{{Method: a, Trav: "c"}, {Method: b, Trav: "cs"}}
+			for _, t := range []input{{Nil: true}, {}, {Ctor: true}, {Set: []string{a}}, {Ctor: true, Set: []string{b}}, {Set: without(b)}} {
+				t.Calls = cs
+				add(t, "after-another")
+			}
+		}
+	}
+	// all methods in a row, both ways round
+	for _, ctor := range []bool{false, true} {
+		var fw, bw []call
+		for i := range methods {
+			fw = append(fw, call{Method: methods[i], Trav: "cs"})
+			bw = append(bw, call{Method: methods[len(methods)-1-i], Trav: "sc", Ctx: "cancelled"})
+		}
+		for _, t := range []input{{Nil: true}, {}, {Set: all()}, {Set: methods[:9]}, {Set: methods[9:]}} {
+			t.Ctor = ctor
+			t.Calls = fw
+			add(t, "all-in-a-row")
+			t.Calls = bw
+			add(t, "all-in-a-row")
+		}
+	}
+	// 8. random tables and random histories
 	rnd := cfg.Rand()
-	n := 400
+	n := 1500
 	if cfg.Thorough() {
-		n = 20000
+		n = 40000
 	}
 	for i := 0; i < n; i++ {
 		var set []string
@@ -403,7 +1089,27 @@ func main() {
 				set = append(set, f)
 			}
 		}
-		add(input{Ctor: rnd.Intn(2) == 0, Set: set, Method: methods[rnd.Intn(len(methods))], Variant: rnd.Intn(len(intVariants))}, "random")
+		in := input{Nil: rnd.Intn(12) == 0, Ctor: rnd.Intn(2) == 0, Set: set}
+		if rnd.Intn(4) == 0 {
+			in.CtorKind = rnd.Intn(4)
+		}
+		for j, nc := 0, 1+rnd.Intn(4); j < nc; j++ {
+			c := call{Method: methods[rnd.Intn(len(methods))], Variant: rnd.Intn(len(intVariants))}
+			if rnd.Intn(3) == 0 {
+				c.Method = iterMethods[rnd.Intn(len(iterMethods))]
+			}
+			if rnd.Intn(2) == 0 {
+				c.Ctx = ctxKinds[rnd.Intn(len(ctxKinds))]
+			}
+			if rnd.Intn(2) == 0 {
+				c.Results = rnd.Intn(4)
+			}
+			for k, nt := 0, 1+rnd.Intn(4); k < nt; k++ {
+				c.Trav += string("csa"[rnd.Intn(3)])
+			}
+			in.Calls = append(in.Calls, c)
+		}
+		add(in, "random")
 	}
 	if err := out.Flush(); err != nil {
 		panic(err)
